@@ -38,6 +38,14 @@ func c18Grid() []interface{} {
 	for _, b := range [][]byte{{}, {0}, []byte("12"), []byte("1.5"), []byte("x"), []byte("2006-01-02 15:04:05"), bytes.Repeat([]byte{0xab}, 5000), []byte("-7")} {
 		g = append(g, b)
 	}
+	// numbers written with many characters (leading zeros, many decimals, zeros in the exponent, many digits),
+	// as text and as blob, in every length class around the widths of a formatted int64 / float64
+	for _, n := range []int{17, 22, 23, 24, 25, 26, 40, 400} {
+		z := strings.Repeat("0", n)
+		for _, s := range []string{z + "12", "+" + z + "7", "-" + z + "7", "3." + strings.Repeat("1", n), "0." + z + "5", "1" + z, "1e" + z + "3", z + ".5e1", z + "x"} {
+			g = append(g, s, []byte(s))
+		}
+	}
 	return g
 }
 
